@@ -220,6 +220,13 @@ mod k3 {
                 let (g1, g2) = (s1.build(), s2.build());
                 let r = DefaultQueryDispatcher.closest_points(&p12, &*g1, &*g2, m);
                 format!("{} {}", fcp(&r), tail_local(&p12, &*g1, &*g2)) }
+            // bare results of the public entry points for the bit-exact model of routing + wrappers + frame changes
+            "cpw3" => { let m = a.f(); let s1 = Sh::parse(a); let p1 = d3::iso(a); let s2 = Sh::parse(a); let p2 = d3::iso(a);
+                let (g1, g2) = (s1.build(), s2.build());
+                quiet(|| fcp(&query::closest_points(&p1, &*g1, &p2, &*g2, m))).unwrap_or("panic".into()) }
+            "dw3" => { let s1 = Sh::parse(a); let p1 = d3::iso(a); let s2 = Sh::parse(a); let p2 = d3::iso(a);
+                let (g1, g2) = (s1.build(), s2.build());
+                quiet(|| match query::distance(&p1, &*g1, &p2, &*g2) { Ok(x) => ff(x), Err(_) => "U".into() }).unwrap_or("panic".into()) }
             // ONE simplex shared by a sequence of `*_with_params` queries (the entry points reset it themselves)
             "vs3" => exec_vs(a),
             // the same history, printed for the bit-exact model: result (+ direction) and the simplex left behind by every query
@@ -491,6 +498,32 @@ mod k3 {
             v.push(("gjkm3".into(), toks.join(" ")));
         }
         }
+        // ---- public entry points, bit-exact (`cpw3`, `dw3`): every route of the dispatcher that is modelled — ball×ball,
+        //      segment×segment, half-space×support map (both orders), support map×support map through GJK — in WORLD poses
+        //      (far from the origin, identity, equal poses), relative placement touching / overlapping / separated
+        {
+        let mut fr = Rng(r.0 ^ 0x5EED_61E5); let r = &mut fr;
+        const WK: [&str; 11] = ["halfspace", "cuboid", "capsule", "segment", "triangle", "cone", "cylinder", "roundcuboid", "roundtriangle", "roundcylinder", "roundcone"];
+        let nw = if thorough { 2400 } else { 240 };
+        for it in 0..nw {
+            let lat = it % 3 == 0;
+            let (k1, k2) = match it % 8 { 0 => ("ball", "ball"), 1 => ("segment", "segment"), 2 => ("halfspace", *r.pick(&WK[1..])), 3 => (*r.pick(&WK[1..]), "halfspace"),
+                _ => (*r.pick(&WK[1..]), *r.pick(&WK[1..])) };
+            let s1 = gen_shape(r, k1, lat); let mut s2 = gen_shape(r, k2, lat);
+            let reach = s1.size() + s2.size();
+            let u = gen_unit(r, lat);
+            let dist = if lat { *r.pick(&[0.0, 1.0, 2.0, 4.0, 6.0, 8.0]) } else { reach * r.uniform(0.25, 2.5) };
+            let mut p12 = if r.below(5) == 0 { Isometry::identity() } else { d3::gen_iso(r, lat, 0.0) };
+            if r.below(6) == 0 && k2 != "halfspace" { s2 = s2.shifted(&(u * dist)); p12.translation.vector = Vector::zeros(); } else { p12.translation.vector = u * dist; }
+            let reach = s1.size() + s2.size();
+            let tscale = *r.pick(&[0.0, 5.0, 5.0, 100.0, 1000.0]);
+            let p1 = if r.below(5) == 0 { Isometry::identity() } else { d3::gen_iso(r, lat, tscale) };
+            let p2 = if p12 == Isometry::identity() { p1 } else { p1 * p12 };
+            let m = match r.below(5) { 0 => 0.0, 1 => f64::MAX, 2 => reach * r.uniform(0.0, 0.5), _ => reach * r.uniform(0.0, 3.0) };
+            let w = format!("{} {} {} {}", s1.tokens(), d3::hiso(&p1), s2.tokens(), d3::hiso(&p2));
+            if it % 3 != 2 { v.push(("cpw3".into(), format!("{} {}", hx(m), w))); } else { v.push(("dw3".into(), w)); }
+        }
+        }
         // ---- focused streams for the SAT-derived routes: closest_points triangle×cuboid and distance cuboid×cuboid
         let nf = if thorough { 3000 } else { 250 };
         for it in 0..nf {
@@ -686,6 +719,12 @@ mod k2 {
                 let (g1, g2) = (s1.build(), s2.build());
                 let r = DefaultQueryDispatcher.closest_points(&p12, &*g1, &*g2, m);
                 format!("{} {}", fcp(&r), tail_local(&p12, &*g1, &*g2)) }
+            "cpw2" => { let m = a.f(); let s1 = Sh::parse(a); let p1 = d2::iso(a); let s2 = Sh::parse(a); let p2 = d2::iso(a);
+                let (g1, g2) = (s1.build(), s2.build());
+                quiet(|| fcp(&query::closest_points(&p1, &*g1, &p2, &*g2, m))).unwrap_or("panic".into()) }
+            "dw2" => { let s1 = Sh::parse(a); let p1 = d2::iso(a); let s2 = Sh::parse(a); let p2 = d2::iso(a);
+                let (g1, g2) = (s1.build(), s2.build());
+                quiet(|| match query::distance(&p1, &*g1, &p2, &*g2) { Ok(x) => ff(x), Err(_) => "U".into() }).unwrap_or("panic".into()) }
             "vs2" => exec_vs(a),
             // the same history, printed for the bit-exact model: result (+ direction) and the simplex left behind by every query
             "gjkm2" => { let n = a.u(); let mut simplex = VoronoiSimplex::new(); let mut out = Vec::new();
@@ -907,6 +946,30 @@ mod k2 {
             let mut p = d2::gen_iso(r, lat, 6.0);
             if r.below(5) == 0 { p.translation.vector[r.below(2) as usize] = if r.bool() { 0.0 } else { -0.0 }; }
             v.push(("sat_cuboid_cuboid_oneway2".into(), format!("{} {} {}", d2::hv(&h1), d2::hv(&h2), d2::hiso(&p))));
+        }
+        // ---- public entry points, bit-exact (`cpw2`, `dw2`): every modelled route of the dispatcher in WORLD poses
+        {
+        let mut fr = Rng(r.0 ^ 0x5EED_62E5); let r = &mut fr;
+        const WK: [&str; 7] = ["halfspace", "cuboid", "capsule", "segment", "triangle", "roundcuboid", "roundtriangle"];
+        let nw = if thorough { 2400 } else { 240 };
+        for it in 0..nw {
+            let lat = it % 3 == 0;
+            let (k1, k2) = match it % 8 { 0 => ("ball", "ball"), 1 => ("segment", "segment"), 2 => ("halfspace", *r.pick(&WK[1..])), 3 => (*r.pick(&WK[1..]), "halfspace"),
+                _ => (*r.pick(&WK[1..]), *r.pick(&WK[1..])) };
+            let s1 = gen_shape(r, k1, lat); let mut s2 = gen_shape(r, k2, lat);
+            let reach = s1.size() + s2.size();
+            let u = gen_unit(r, lat);
+            let dist = if lat { *r.pick(&[0.0, 1.0, 2.0, 4.0, 6.0, 8.0]) } else { reach * r.uniform(0.25, 2.5) };
+            let mut p12 = if r.below(5) == 0 { Isometry::identity() } else { d2::gen_iso(r, lat, 0.0) };
+            if r.below(6) == 0 && k2 != "halfspace" { s2 = s2.shifted(&(u * dist)); p12.translation.vector = Vector::zeros(); } else { p12.translation.vector = u * dist; }
+            let reach = s1.size() + s2.size();
+            let tscale = *r.pick(&[0.0, 5.0, 5.0, 100.0, 1000.0]);
+            let p1 = if r.below(5) == 0 { Isometry::identity() } else { d2::gen_iso(r, lat, tscale) };
+            let p2 = if p12 == Isometry::identity() { p1 } else { p1 * p12 };
+            let m = match r.below(5) { 0 => 0.0, 1 => f64::MAX, 2 => reach * r.uniform(0.0, 0.5), _ => reach * r.uniform(0.0, 3.0) };
+            let w = format!("{} {} {} {}", s1.tokens(), d2::hiso(&p1), s2.tokens(), d2::hiso(&p2));
+            if it % 3 != 2 { v.push(("cpw2".into(), format!("{} {}", hx(m), w))); } else { v.push(("dw2".into(), w)); }
+        }
         }
         // ---- focused streams: SAT-derived routes (triangle×cuboid closest points, cuboid×cuboid distance) and crossing segments
         let nf = if thorough { 1500 } else { 150 };
